@@ -48,6 +48,42 @@ def main():
             print(f"  {name}: n_trajectories={ntraj}: simulations={len(runs)} aggregated={agg.get('n')} shots={total}")
             if len(runs) != ntraj or agg.get("n") != ntraj or total != 10 * ntraj:
                 bad = (name, ntraj, len(runs), agg.get("n"), total)
+    # many trajectories: the LAST
+    # aggregation must receive exactly the per-trajectory results, each once, nothing pre-folded
+    if not bad:
+        nm = pulser.NoiseModel(state_prep_error=0.05)
+        for name, B, C, mod in (("emu-mps", MPSBackend, MPSConfig, MB), ("emu-sv", SVBackend, SVConfig, SB)):
+            orig = B._run_from_sequence_data
+            for ntraj in (17, 40):
+                made, calls = [], []
+                orig_agg = Results.aggregate
+
+                def stub(sd, cfg, _o=orig):
+                    r = _o(sd, cfg)
+                    made.append(r)
+                    return r
+
+                def agg_spy(results, *a, **k):
+                    calls.append(list(results))
+                    return orig_agg(results, *a, **k)
+                B._run_from_sequence_data = staticmethod(stub)
+                mod.Results.aggregate = staticmethod(agg_spy)
+                try:
+                    cfg = C(noise_model=nm, n_trajectories=ntraj, observables=[BitStrings(evaluation_times=[1.0], num_shots=10)], log_level=50)
+                    res = B(seq, config=cfg).run()
+                finally:
+                    B._run_from_sequence_data = staticmethod(orig)
+                    mod.Results.aggregate = orig_agg
+                last = calls[-1] if calls else []
+                same = len(last) == len(made) and all(a is b for a, b in zip(last, made))
+                total = sum(res.bitstrings[-1].values())
+                print(f"  {name}: n_trajectories={ntraj} : simulations={len(made)} aggregate calls={len(calls)} "
+                      f"final aggregate over {len(last)} results, all per-trajectory results={same}, shots={total}")
+                if len(made) != ntraj or not same or total != 10 * ntraj:
+                    print(f"REPRODUCED: {name} with n_trajectories={ntraj}: {len(made)} simulations, the final "
+                          f"Results.aggregate received {len(last)} objects ({'the per-trajectory results' if same else 'NOT the per-trajectory results, e.g. pre-folded partial aggregates'}), "
+                          f"{len(calls)} aggregate calls, bitstring total {total} (expected {10 * ntraj})")
+                    return 1
     if bad:
         print(f"REPRODUCED: {bad[0]} with n_trajectories={bad[1]} ran {bad[2]} simulations, aggregated {bad[3]}, "
               f"bitstring counts add up to {bad[4]} (expected {10 * bad[1]})")
